@@ -251,7 +251,7 @@ func runC12(r *mc.Run) {
 		depth = 6
 		r.SetBudget(10 * 60 * 1e9)
 	} else {
-		r.SetBudget(150 * 1e9)
+		r.SetBudget(300 * 1e9)
 	}
 	r.Bounds["depth_blocks"] = depth
 	r.Rule = "DFS over reward histories (grants, gas revenue incl. 18-decimal amounts, claims incl. double claim and a rolled-back batch, lock/unlock/create, absent votes) for power vectors (4,1,1),(1,2),(1) [+(1,1,1),(1,1)]; halving interval 2; oracle = step conservation identity, emission min(remain, initial>>(h/interval)), proportional shares within 18-decimal precision, sum of shares <= pool, exact carry-over, claim pays accrued once, non-negativity"
